@@ -912,6 +912,66 @@ def c16(scn):
 
 # ----------------------------------------------------------------------------- C15
 
+def c15_raw(scn):
+    """`mstraw`: both trees reported for a synthetic basin graph must be spanning forests of it with
+    the weights of a minimum one (the sorted list of weights is the same for every minimum spanning
+    forest, so the comparison is exact - no floating-point sums)"""
+    fails = []
+    for call in scn.calls:
+        if call.cmd != "mstraw":
+            continue
+        nb, ne = int(call.toks[1]), int(call.toks[2])
+        E = [(int(call.toks[3 + 3 * k]), int(call.toks[4 + 3 * k]), unhx(call.toks[5 + 3 * k])) for k in range(ne)]
+
+        def comps_and_ref():
+            par = list(range(nb))
+
+            def find(x):
+                while par[x] != x:
+                    par[x] = par[par[x]]
+                    x = par[x]
+                return x
+            ws = []
+            for k in sorted(range(ne), key=lambda k: E[k][2]):
+                a, b = find(E[k][0]), find(E[k][1])
+                if a != b:
+                    par[a] = b
+                    ws.append(E[k][2])
+            return sorted(ws)
+        ref = comps_and_ref()
+        for key in ("raw_k", "raw_b", "raw_b2"):
+            if key not in call.O:
+                fails.append(("mstraw_output", "line %d: %s missing" % (call.li, key)))
+                continue
+            t = [int(x) for x in call.O[key]]
+            if any(i >= ne for i in t) or len(set(t)) != len(t):
+                fails.append(("tree_edges_valid", "line %d: %s lists an invalid or repeated edge index" % (call.li, key)))
+                continue
+            par = list(range(nb))
+
+            def find(x):
+                while par[x] != x:
+                    par[x] = par[par[x]]
+                    x = par[x]
+                return x
+            cyc = False
+            for i in t:
+                a, b = find(E[i][0]), find(E[i][1])
+                if a == b:
+                    cyc = True
+                    break
+                par[a] = b
+            if cyc:
+                fails.append(("tree_acyclic", "line %d: %s contains a cycle" % (call.li, key)))
+                continue
+            if len(t) != len(ref):
+                fails.append(("tree_spans", "line %d: %s has %d edges, a spanning forest has %d" % (call.li, key, len(t), len(ref))))
+                continue
+            if sorted(E[i][2] for i in t) != ref:
+                fails.append(("tree_minimum_weight", "line %d: %s is not a minimum spanning forest (its weights differ from those of Kruskal's)" % (call.li, key)))
+    return fails
+
+
 def c15(scn):
     """basin graph = lowest passes between adjacent basins; tree = minimum spanning tree over
     them (weight compared exactly with an independent Kruskal); orientation away from the root"""
